@@ -261,13 +261,14 @@ func (e *Exec) run() {
 
 // Options of an exploration.
 type Options struct {
-	Bound      int       // preemption bound; <0 = unbounded (complete interleaving space)
-	MaxExec    int64     // cap on executions (0 = none); hitting it makes the result non-exhaustive
-	Deadline   time.Time // zero = none
-	MaxSteps   int       // horizon per execution (default 20000)
-	Shard, NSh int       // level-1 subtrees are dealt round-robin over NSh workers
-	Replay     []int     // run exactly this schedule (and nothing else)
-	SelfCheck  bool      // replay every K-th execution twice and require identical traces
+	Bound          int       // preemption bound; <0 = unbounded (complete interleaving space)
+	MaxExec        int64     // cap on executions (0 = none); hitting it makes the result non-exhaustive
+	Deadline       time.Time // zero = none
+	MaxSteps       int       // horizon per execution (default 20000)
+	Shard, NSh     int       // level-1 subtrees are dealt round-robin over NSh workers
+	Replay         []int     // run exactly this schedule (and nothing else)
+	SelfCheck      bool      // replay every K-th execution twice and require identical traces
+	DeadlockPollMs int       // how long to re-poll before declaring a deadlock (default 20 ms; raise when unmanaged goroutines can unblock a thread)
 }
 
 // Result of an exploration.
